@@ -121,6 +121,9 @@ Infer/Unify.vos Infer/Unify.vok Infer/Unify.required_vos: Infer/Unify.v Ir/Synta
 Infer/Variance.vo Infer/Variance.glob Infer/Variance.v.beautified Infer/Variance.required_vo: Infer/Variance.v Ir/Syntax.vo Ir/Fold.vo Infer/Table.vo Infer/Unify.vo
 Infer/Variance.vio: Infer/Variance.v Ir/Syntax.vio Ir/Fold.vio Infer/Table.vio Infer/Unify.vio
 Infer/Variance.vos Infer/Variance.vok Infer/Variance.required_vos: Infer/Variance.v Ir/Syntax.vos Ir/Fold.vos Infer/Table.vos Infer/Unify.vos
+Infer/VarianceU.vo Infer/VarianceU.glob Infer/VarianceU.v.beautified Infer/VarianceU.required_vo: Infer/VarianceU.v Ir/Syntax.vo Ir/Fold.vo Infer/Table.vo Infer/Unify.vo Infer/Script.vo Infer/Variance.vo Infer/Closed.vo
+Infer/VarianceU.vio: Infer/VarianceU.v Ir/Syntax.vio Ir/Fold.vio Infer/Table.vio Infer/Unify.vio Infer/Script.vio Infer/Variance.vio Infer/Closed.vio
+Infer/VarianceU.vos Infer/VarianceU.vok Infer/VarianceU.required_vos: Infer/VarianceU.v Ir/Syntax.vos Ir/Fold.vos Infer/Table.vos Infer/Unify.vos Infer/Script.vos Infer/Variance.vos Infer/Closed.vos
 Ir/CouldMatch.vo Ir/CouldMatch.glob Ir/CouldMatch.v.beautified Ir/CouldMatch.required_vo: Ir/CouldMatch.v Ir/Syntax.vo Ir/Fold.vo
 Ir/CouldMatch.vio: Ir/CouldMatch.v Ir/Syntax.vio Ir/Fold.vio
 Ir/CouldMatch.vos Ir/CouldMatch.vok Ir/CouldMatch.required_vos: Ir/CouldMatch.v Ir/Syntax.vos Ir/Fold.vos
@@ -148,6 +151,9 @@ Logic/Fuel.vos Logic/Fuel.vok Logic/Fuel.required_vos: Logic/Fuel.v Logic/Ground
 Logic/Ground.vo Logic/Ground.glob Logic/Ground.v.beautified Logic/Ground.required_vo: Logic/Ground.v Logic/Sem.vo
 Logic/Ground.vio: Logic/Ground.v Logic/Sem.vio
 Logic/Ground.vos Logic/Ground.vok Logic/Ground.required_vos: Logic/Ground.v Logic/Sem.vos
+Logic/Inv.vo Logic/Inv.glob Logic/Inv.v.beautified Logic/Inv.required_vo: Logic/Inv.v Logic/Meta.vo
+Logic/Inv.vio: Logic/Inv.v Logic/Meta.vio
+Logic/Inv.vos Logic/Inv.vok Logic/Inv.required_vos: Logic/Inv.v Logic/Meta.vos
 Logic/Meta.vo Logic/Meta.glob Logic/Meta.v.beautified Logic/Meta.required_vo: Logic/Meta.v Logic/Contract.vo
 Logic/Meta.vio: Logic/Meta.v Logic/Contract.vio
 Logic/Meta.vos Logic/Meta.vok Logic/Meta.required_vos: Logic/Meta.v Logic/Contract.vos
@@ -166,12 +172,12 @@ Logic/Sem.vos Logic/Sem.vok Logic/Sem.required_vos: Logic/Sem.v Logic/Program.vo
 Mem/InPlace.vo Mem/InPlace.glob Mem/InPlace.v.beautified Mem/InPlace.required_vo: Mem/InPlace.v 
 Mem/InPlace.vio: Mem/InPlace.v 
 Mem/InPlace.vos Mem/InPlace.vok Mem/InPlace.required_vos: Mem/InPlace.v 
-Props/C01.vo Props/C01.glob Props/C01.v.beautified Props/C01.required_vo: Props/C01.v Logic/Contract.vo Logic/Meta.vo Logic/Fuel.vo Logic/Decide.vo Logic/Classes.vo
-Props/C01.vio: Props/C01.v Logic/Contract.vio Logic/Meta.vio Logic/Fuel.vio Logic/Decide.vio Logic/Classes.vio
-Props/C01.vos Props/C01.vok Props/C01.required_vos: Props/C01.v Logic/Contract.vos Logic/Meta.vos Logic/Fuel.vos Logic/Decide.vos Logic/Classes.vos
-Props/C02.vo Props/C02.glob Props/C02.v.beautified Props/C02.required_vo: Props/C02.v Logic/Contract.vo Logic/Fuel.vo
-Props/C02.vio: Props/C02.v Logic/Contract.vio Logic/Fuel.vio
-Props/C02.vos Props/C02.vok Props/C02.required_vos: Props/C02.v Logic/Contract.vos Logic/Fuel.vos
+Props/C01.vo Props/C01.glob Props/C01.v.beautified Props/C01.required_vo: Props/C01.v Logic/Contract.vo Logic/Meta.vo Logic/Fuel.vo Logic/Decide.vo Logic/Classes.vo Logic/Inv.vo
+Props/C01.vio: Props/C01.v Logic/Contract.vio Logic/Meta.vio Logic/Fuel.vio Logic/Decide.vio Logic/Classes.vio Logic/Inv.vio
+Props/C01.vos Props/C01.vok Props/C01.required_vos: Props/C01.v Logic/Contract.vos Logic/Meta.vos Logic/Fuel.vos Logic/Decide.vos Logic/Classes.vos Logic/Inv.vos
+Props/C02.vo Props/C02.glob Props/C02.v.beautified Props/C02.required_vo: Props/C02.v Logic/Contract.vo Logic/Fuel.vo Logic/Inv.vo
+Props/C02.vio: Props/C02.v Logic/Contract.vio Logic/Fuel.vio Logic/Inv.vio
+Props/C02.vos Props/C02.vok Props/C02.required_vos: Props/C02.v Logic/Contract.vos Logic/Fuel.vos Logic/Inv.vos
 Props/C03.vo Props/C03.glob Props/C03.v.beautified Props/C03.required_vo: Props/C03.v Engine/SlgTable.vo
 Props/C03.vio: Props/C03.v Engine/SlgTable.vio
 Props/C03.vos Props/C03.vok Props/C03.required_vos: Props/C03.v Engine/SlgTable.vos
